@@ -476,6 +476,7 @@ def run_history(ctx, case) -> None:
     nontrivial = False
     cleared_since_create = False
     genes_added: set[int] = set()
+    built: dict = {}
     try:
         for op in case["ops"]:
             name = op[0]
@@ -489,7 +490,18 @@ def run_history(ctx, case) -> None:
             ctx.count("hist-op:" + name)
             areas_before = current_areas(record)
             try:
-                obj = make_object(world, op)
+                # a caller may hand back the very object that a clear_* removed earlier: every other time a spec
+                # comes round again its old object is reused (if it is no longer in the record), else built afresh
+                key = (name, op[1]) if len(op) > 1 else None
+                old = built.get(key)
+                if old is not None and name in ("add_subregion", "add_protocluster") and (len(built) + op[1]) % 2 == 0 \
+                        and not any(old is area for area in current_areas(record)):
+                    obj = old
+                    ctx.count("history:removed-area-object-added-again")
+                else:
+                    obj = make_object(world, op)
+                if key is not None and obj is not None:
+                    built[key] = obj
             except Exception as err:  # pylint: disable=broad-except
                 ctx.count("skipped:spec-rejected-by-constructor")
                 ctx.extra.setdefault("constructor_rejections", [])
